@@ -15,6 +15,17 @@
 (*                      nothing recorded earlier is lost or altered        *)
 (*   NoRecordOtherwise  no other change to the audit map, ever             *)
 (*   AgentUntouched     the agent's connects: address untouched, no record *)
+(* A connection may end while nobody consumed its record ("end" row: the   *)
+(* client went away before the proxy's accept); the record is then a       *)
+(* leftover and the kernel may hand its source port to a later connect.    *)
+(* What the agent reads under the port after that connect's tcp step is    *)
+(* judged against THIS connect: a diverted connect must find its own       *)
+(* record there (an untouched leftover of another caller is a RecordTruth  *)
+(* violation: the record keyed by the connection's source port states the  *)
+(* wrong caller); a connect that must not / need not produce a record may  *)
+(* leave the leftover exactly as it was (nothing was produced), but must   *)
+(* not alter it.  Only leftovers may drop out of the map (LRU) when a      *)
+(* record is added.                                                        *)
 (* Where the statement is silent the observation is accepted either way:   *)
 (* a connect whose destination was not listed at connect4 but is listed at *)
 (* tcp_connect, and a socket the cgroup hook never saw, may or may not be  *)
@@ -32,6 +43,8 @@
 (*     "rec":{"present":b,"logon":s,"pid":s,"admin":n,"ip":s,"port":n},    *)
 (*     "achg":[{"proto":n,"sport":n}..],"agone":[..]}                      *)
 (*  {"e":"consume","sport":n,"found":b,"achg":[..],"agone":[sport..]}      *)
+(*  {"e":"end","sport":n,"achg":[..],"agone":[..]}   the connection on     *)
+(*     sport ended, nothing was consumed                                   *)
 (***************************************************************************)
 EXTENDS Naturals, Sequences, FiniteSets, TLC, Json, IOUtils
 
@@ -42,27 +55,28 @@ VARIABLES l,     \* next row
           skp,   \* pids registered by the agent
           pend,  \* <<pid, tid>> -> what the property fixed at connect4 for the pending TCP connect
           recd,  \* source ports that have a record (as observed through the agent's lookup)
+          left,  \* subset of recd: the connection that produced the record ended, nobody consumed it (leftovers)
           bad    \* [p |-> violated property | "none", f |-> detail]
-tvars == <<l, pol, skp, pend, recd, bad>>
+tvars == <<l, pol, skp, pend, recd, left, bad>>
 
 TCPN == 6
 Good == [p |-> "none", f |-> "none"]
 Empty == [x \in {} |-> Good]
 Drop(f, k) == [x \in DOMAIN f \ {k} |-> f[x]]
 
-TInit == l = 1 /\ pol = Empty /\ skp = {} /\ pend = Empty /\ recd = {} /\ bad = Good
+TInit == l = 1 /\ pol = Empty /\ skp = {} /\ pend = Empty /\ recd = {} /\ left = {} /\ bad = Good
 
 Row == Rec[l]
 
 Reset == /\ Row.e = "reset"
-         /\ pol' = Empty /\ skp' = {} /\ pend' = Empty /\ recd' = {} /\ UNCHANGED bad
+         /\ pol' = Empty /\ skp' = {} /\ pend' = Empty /\ recd' = {} /\ left' = {} /\ UNCHANGED bad
 
 Policy == /\ Row.e = "policy"
           /\ pol' = IF Row.op = "add" THEN (<<Row.ip, Row.port>> :> <<Row.to_ip, Row.to_port>>) @@ pol
                     ELSE Drop(pol, <<Row.ip, Row.port>>)
-          /\ UNCHANGED <<skp, pend, recd, bad>>
+          /\ UNCHANGED <<skp, pend, recd, left, bad>>
 
-Skip == /\ Row.e = "skip" /\ skp' = skp \cup {Row.pid} /\ UNCHANGED <<pol, pend, recd, bad>>
+Skip == /\ Row.e = "skip" /\ skp' = skp \cup {Row.pid} /\ UNCHANGED <<pol, pend, recd, left, bad>>
 
 First(checks) == IF \E i \in 1..Len(checks) : checks[i][1]
                  THEN LET i == CHOOSE j \in 1..Len(checks) : checks[j][1] /\ \A k \in 1..(j - 1) : ~checks[k][1]
@@ -86,24 +100,36 @@ Connect4 ==
          /\ pend' = IF Row.proto = TCPN
                     THEN (<<Row.pid, Row.tid>> :> [ip |-> Row.ip, port |-> Row.port, div |-> must, agent |-> agent]) @@ pend
                     ELSE pend
-  /\ UNCHANGED <<pol, skp, recd>>
+  /\ UNCHANGED <<pol, skp, recd, left>>
+
+\* the port of this connect carried a leftover and this step left the audit map entry as it was: what the agent
+\* reads there was not produced by this connect
+Kept == Row.rec.present /\ Row.sport \in left /\ Row.achg = <<>>
+\* the record read under the port is judged as this connect's own
+Mine(mode) == Row.rec.present /\ (mode = "must" \/ ~Kept)
+Gone == {Row.agone[i] : i \in 1..Len(Row.agone)}
 
 \* mode: "must" = record required, "may" = optional but truthful, "none" = forbidden
 Judge(mode, agent, oip, oport) ==
   LET r == Row.rec
+      mine == Mine(mode)
       others == \E i \in 1..Len(Row.achg) : Row.achg[i].proto # TCPN \/ Row.achg[i].sport # Row.sport
   IN First(<<
       <<mode = "must" /\ ~r.present, "RecordTruth", "missing">>,
-      <<mode = "none" /\ r.present /\ agent, "AgentUntouched", "record">>,
-      <<mode = "none" /\ r.present, "NoRecordOtherwise", "record">>,
-      <<r.present /\ r.logon # Row.uid, "RecordTruth", "logon">>,
-      <<r.present /\ r.pid # Row.pid, "RecordTruth", "pid">>,
-      <<r.present /\ r.admin # (IF Row.uid = "0" THEN 1 ELSE 0), "RecordTruth", "admin">>,
-      <<r.present /\ r.ip # oip, "RecordTruth", "ip">>,
-      <<r.present /\ r.port # oport, "RecordTruth", "port">>,
+      <<mode = "none" /\ mine /\ agent, "AgentUntouched", "record">>,
+      <<mode = "none" /\ mine, "NoRecordOtherwise", "record">>,
+      <<mine /\ r.logon # Row.uid, "RecordTruth", "logon">>,
+      <<mine /\ r.pid # Row.pid, "RecordTruth", "pid">>,
+      <<mine /\ r.admin # (IF Row.uid = "0" THEN 1 ELSE 0), "RecordTruth", "admin">>,
+      <<mine /\ r.ip # oip, "RecordTruth", "ip">>,
+      <<mine /\ r.port # oport, "RecordTruth", "port">>,
       <<others, "NoRecordOtherwise", "other-key">>,
       <<~r.present /\ Row.achg # <<>>, "NoRecordOtherwise", "unreadable-record">>,
-      <<Row.agone # <<>>, "RecordTruth", "earlier-record-lost">> >>)
+      <<~(Gone \subseteq left), "RecordTruth", "earlier-record-lost">> >>)
+
+\* bookkeeping after a tcp step: evicted leftovers are forgotten; the port's entry is this connect's when judged so
+RecdAfter(mode) == (IF Row.rec.present THEN recd \cup {Row.sport} ELSE recd) \ Gone
+LeftAfter(mode) == (left \ Gone) \ (IF Mine(mode) \/ ~Row.rec.present THEN {Row.sport} ELSE {})
 
 Tcp ==
   /\ Row.e = "tcp" /\ ~Row.direct
@@ -114,17 +140,17 @@ Tcp ==
                  ELSE IF agent THEN "none"
                  ELSE IF <<p.ip, p.port>> \in DOMAIN pol THEN "may"      \* listed between the two hooks
                  ELSE "none"
-     IN  bad' = Judge(mode, agent, p.ip, p.port)
+     IN  /\ bad' = Judge(mode, agent, p.ip, p.port)
+         /\ recd' = RecdAfter(mode) /\ left' = LeftAfter(mode)
   /\ pend' = Drop(pend, <<Row.pid, Row.tid>>)
-  /\ recd' = IF Row.rec.present THEN recd \cup {Row.sport} ELSE recd
   /\ UNCHANGED <<pol, skp>>
 
 TcpDirect ==
   /\ Row.e = "tcp" /\ Row.direct
   /\ LET agent == Row.pid \in skp
          mode == IF agent THEN "none" ELSE IF <<Row.dip, Row.dport>> \in DOMAIN pol THEN "may" ELSE "none"
-     IN  bad' = Judge(mode, agent, Row.dip, Row.dport)
-  /\ recd' = IF Row.rec.present THEN recd \cup {Row.sport} ELSE recd
+     IN  /\ bad' = Judge(mode, agent, Row.dip, Row.dport)
+         /\ recd' = RecdAfter(mode) /\ left' = LeftAfter(mode)
   /\ UNCHANGED <<pol, skp, pend>>
 
 Consume ==
@@ -134,11 +160,20 @@ Consume ==
         <<Row.sport \notin recd /\ Row.found, "NoRecordOtherwise", "record">>,
         <<Row.achg # <<>>, "NoRecordOtherwise", "audit-changed-at-consume">>,
         <<Row.agone # (IF Row.found THEN <<Row.sport>> ELSE <<>>), "RecordTruth", "earlier-record-lost">> >>)
-  /\ recd' = recd \ {Row.sport}
+  /\ recd' = recd \ {Row.sport} /\ left' = left \ {Row.sport}
   /\ UNCHANGED <<pol, skp, pend>>
 
+\* the connection on this port is over and nobody consumed its record: from now on the record (if any) is a leftover
+End ==
+  /\ Row.e = "end"
+  /\ bad' = First(<<
+        <<Row.achg # <<>>, "NoRecordOtherwise", "audit-changed-at-end">>,
+        <<Row.agone # <<>>, "RecordTruth", "earlier-record-lost">> >>)
+  /\ left' = left \cup ({Row.sport} \cap recd)
+  /\ UNCHANGED <<pol, skp, pend, recd>>
+
 TNext == /\ l <= Len(Rec) /\ bad = Good
-         /\ (Reset \/ Policy \/ Skip \/ Connect4 \/ Tcp \/ TcpDirect \/ Consume)
+         /\ (Reset \/ Policy \/ Skip \/ Connect4 \/ Tcp \/ TcpDirect \/ Consume \/ End)
          /\ l' = l + 1
 TSpec == TInit /\ [][TNext]_tvars
 
